@@ -87,3 +87,9 @@ func (a *AliveDialerSet) VerifState() VerifAliveSetState {
 	}
 	return s
 }
+
+// VerifSnapshotLatencyForPolicy exposes the node's OWN current measure under a
+// policy (the function every AliveDialerSet reads it through); no logic.
+func (d *Dialer) VerifSnapshotLatencyForPolicy(typ *NetworkType, policy consts.DialerSelectionPolicy) (time.Duration, bool) {
+	return d.snapshotLatencyForPolicy(typ, policy)
+}
